@@ -193,8 +193,12 @@ CHECKS['C02']['text'] = (
     "factors sparse by C11/C12; precondition EvoCompat: H.qd = psi.qd, leading MPO bond charge 0), and by compress under the C13 contracts with "
     "0 <= tol < 1 (scale != 0 is proved); by induction it holds in every reachable state of any history (run_wf_all). Boundary charges are kept "
     "for non-zero objects by orthonormalize, compress (non-zero factors), TDVP1/TDVP2, DMRG1 and DMRG2 (every 0 <= tol_split < 1; "
-    "dmrg2_boundary_total is unconditional: the call returns and keeps qD[0], qD[L]) (50 theorems). Constructors with a numeric fill and "
-    "graph->MPO are tied by their own exact correspondences (C02 constructors stream, C05).")
+    "dmrg2_boundary_total is unconditional: the call returns and keeps qD[0], qD[L]). Round 6: the creating operations are operations of the "
+    "history model too (Model/OpsX.lean, Props/C02Ctor.lean): MPS/MPO(qd, qD, fill=x), MPO.identity, EVERY MPO returned by MPO.from_opgraph and "
+    "by the Hamiltonian constructors of hamiltonian.py, and re-splitting two neighbouring tensors (merge_mps_tensor_pair + split_mps_tensor) are "
+    "proved to give well-formed objects, so every pool reachable from the EMPTY pool is well formed (xrun_wf_from_empty; no assumption on "
+    "initial objects) (60 theorems). Tie: histories of the real code (a quarter of them starting from nothing, with constructor, from_opgraph and "
+    "resplit steps) compared step by step with the model.")
 CHECKS['C07']['text'] = (
     "Proof (full for the spinless constructions, partial for the spin-orbital ones): for every orbital count and all coefficient tensors the chain "
     "enumeration of the bond-optimized spinless and spin-orbital constructions never fails and yields well-formed chains, so with C05 the optimized "
@@ -262,3 +266,14 @@ CHECKS['C15']['text'] = (
     "every real symmetric tridiagonal input (Mathlib's spectral theorem, re-sorted ascending), so the statements also hold hypothesis-free for "
     "that kernel (…_eighExact) and the Hermitian calls always return for a non-zero vector and numiter >= 1 (27 theorems). Outside the model: "
     "floating point (the threshold test ends the iteration on small non-zero residuals; F11, repaired, was such an effect for m > n).")
+
+
+# ---- round-6 texts ---------------------------------------------------------------------------------------------------
+CHECKS['C13']['text'] = CHECKS['C13']['text'].replace(
+    'from_vector error <= sqrt(L tol) (13 theorems;',
+    'from_vector error <= sqrt(L tol); after the repair of F12 (zero vector) from_vector returns for EVERY vector and tolerance and is exact at tol 0 '
+    '(from_vector_total, from_vector_tol0_total) (15 theorems;')
+CHECKS['C03']['text'] = CHECKS['C03']['text'].replace(
+    'positive bonds (25 theorems).',
+    'positive bonds. Round 6: zero-tolerance from_vector is total -- for every vector, the zero vector included (defect F12, repaired), the call '
+    'returns and reproduces the vector (C13.from_vector_tol0_total) (26 theorems).')
